@@ -11,7 +11,7 @@ use utils::singleflight::{Group, SingleflightError};
 
 use crate::engine::{Case, Ctx};
 
-pub const RULE: &str = "scripts of events {Call(key in 3 keys, outcome Ok / Err / Panic, gate in 4 gates, yields before the call, optionally a second call by the same caller straight after the first returns), Release(gate), Yield(n)} with 1-12 callers; every supplied task logs its start, waits for its gate and returns its outcome tagged with the caller id; remaining gates are released at the end. Mode A: current-thread runtime with a paused (virtual) clock and a generated plan of cooperative yields at three guarded points inside Group::work (after the call-map lookup, after the result future is created, before the owner removes the call) - deterministic, and a caller that would wait forever trips a 1-hour virtual timeout as soon as the runtime is idle. Mode B: the same scripts on a 2-4 worker multi-thread runtime (real parallelism; a hang there is inconclusive, a wrong outcome is a violation). Oracle over the event log (logical timestamps): tasks started = calls reporting ownership; an owner's own task started exactly once and a non-owner's never; an owner receives its own value / error / join error; every non-owner result names an owner of the same key whose call interval overlaps its own and whose outcome kind matches (value id, error payload, or panic notification); the executions of two tasks of one key never overlap in time; all callers return. non-trivial = script in which >= 2 waiters joined one flight and a later call on the same key started a new flight; distinct by fingerprint of the script";
+pub const RULE: &str = "scripts of events {Call(key in 3 keys, outcome Ok / Err / Panic, gate in 4 gates, yields before the call, optionally a second call by the same caller straight after the first returns), Release(gate), Yield(n)} with 1-12 callers; every supplied task logs its start, waits for its gate and returns its outcome tagged with the caller id; remaining gates are released at the end. Mode A: current-thread runtime with a paused (virtual) clock and a generated plan of cooperative yields at three guarded points inside Group::work (after the call-map lookup, after the result future is created, before the owner removes the call) - deterministic, and a caller that would wait forever trips a 1-hour virtual timeout as soon as the runtime is idle. Mode B: the same scripts on a 2-4 worker multi-thread runtime (real parallelism); there a caller counts as waiting forever only by relative progress - every gate released, every started task finished, and the same runtime completed several rounds of 500 fresh tasks and 10 fresh flights while the caller still had not returned - never by a wall-clock limit (a plain time limit is inconclusive). Oracle over the event log (logical timestamps): tasks started = calls reporting ownership; an owner's own task started exactly once and a non-owner's never; an owner receives its own value / error / join error; every non-owner result names an owner of the same key whose call interval overlaps its own and whose outcome kind matches (value id, error payload, or panic notification); the executions of two tasks of one key never overlap in time; all callers return. non-trivial = script in which >= 2 waiters joined one flight and a later call on the same key started a new flight; distinct by fingerprint of the script";
 
 pub const ASSUMPTIONS: &[&str] = &[
     "callers are not cancelled while waiting (the property does not cover dropped callers)",
@@ -182,11 +182,63 @@ async fn run_script(script: &Script, virtual_clock: bool) -> Result<Vec<CallLog>
             let _ = h.await;
         }
     };
-    let limit = if virtual_clock { Duration::from_secs(3600) } else { Duration::from_secs(20) };
-    if tokio::time::timeout(limit, all).await.is_err() {
-        let c = shared.calls.lock().unwrap();
-        let stuck: Vec<usize> = c.iter().enumerate().filter(|(_, l)| l.returned.is_none()).map(|(i, _)| i).collect();
-        return Err(format!("HANG callers {stuck:?} never returned although every gate was released"));
+    if virtual_clock {
+        if tokio::time::timeout(Duration::from_secs(3600), all).await.is_err() {
+            let c = shared.calls.lock().unwrap();
+            let stuck: Vec<usize> = c.iter().enumerate().filter(|(_, l)| l.returned.is_none()).map(|(i, _)| i).collect();
+            return Err(format!("HANG callers {stuck:?} never returned although every gate was released"));
+        }
+    } else {
+        // Real threads: liveness is judged by *relative progress*, not by a wall-clock limit. Every gate is
+        // released, so every remaining caller is runnable or one wake-up away from it. If the same runtime
+        // completes several rounds of freshly spawned tasks and fresh flights on other keys while a caller
+        // still has not returned, that caller is parked for good (tokio polls a woken task before an
+        // unbounded number of later-spawned ones). A slow machine only makes this take longer.
+        tokio::pin!(all);
+        let mut rounds_without_progress = 0;
+        let mut last_pending = usize::MAX;
+        let started = std::time::Instant::now();
+        loop {
+            if tokio::time::timeout(Duration::from_millis(1500), &mut all).await.is_ok() {
+                break;
+            }
+            // probe round
+            let mut probes = Vec::new();
+            for i in 0..500u32 {
+                let g = group.clone();
+                probes.push(tokio::spawn(async move {
+                    tokio::task::yield_now().await;
+                    if i % 50 == 0 {
+                        let _ = g.work(&format!("probe-{i}"), async move { Ok::<u64, String>(i as u64) }).await;
+                    }
+                }));
+            }
+            for p in probes {
+                let _ = p.await;
+            }
+            let pending: Vec<usize> = shared.calls.lock().unwrap().iter().enumerate().filter(|(_, l)| l.returned.is_none()).map(|(i, _)| i).collect();
+            if pending.is_empty() {
+                continue;
+            }
+            if pending.len() == last_pending {
+                rounds_without_progress += 1;
+            } else {
+                rounds_without_progress = 0;
+                last_pending = pending.len();
+            }
+            if rounds_without_progress >= 4 {
+                let unfinished_tasks = shared.calls.lock().unwrap().iter().filter(|l| l.task_start.is_some() && l.task_end.is_none()).count();
+                if unfinished_tasks == 0 {
+                    return Err(format!(
+                        "HANG-CONFIRMED callers {pending:?} have not returned although every gate was released, every started task has finished and the runtime completed {} probe rounds (500 fresh tasks and 10 fresh flights each) meanwhile",
+                        rounds_without_progress + 1
+                    ));
+                }
+            }
+            if started.elapsed() > Duration::from_secs(300) {
+                return Err(format!("TIMEOUT callers {pending:?} pending after 300 s without a confirmed hang"));
+            }
+        }
     }
     let c = shared.calls.lock().unwrap().clone();
     Ok(c)
@@ -333,8 +385,11 @@ fn mode_b(script: &Script, info: &mut Case) -> Result<(), String> {
                 let v = judge(&log)?;
                 labels(info, script, &v);
             },
+            Ok(Err(e)) if e.starts_with("HANG-CONFIRMED") => {
+                return Err(format!("[sig:c20-hang] multi-thread runtime: {e}"));
+            },
             Ok(Err(e)) => {
-                // real-time hang on an OS schedule: inconclusive, not a violation
+                // no confirmed hang, only a time limit: inconclusive, not a violation
                 return Err(format!("[sig:infra] mode B {e}"));
             },
             Err(e) => return Err(format!("[sig:infra] mode B join error {e}")),
